@@ -41,6 +41,7 @@ type feature struct {
 	q     []string // observation expressions (must not change state)
 	roots []string // object-valued globals other features may link to / from
 	plain []string // extensible plain objects that can receive a link property
+	both  []string // accessor invocations run after Copy() on the copy and on the original, in both orders
 }
 
 var features = []feature{
@@ -149,6 +150,30 @@ var features = []feature{
 		muts:  []string{`hostMark$++`, `debugger;`, `debugger; debugger;`, `hostMark$ = 'm'`, `dbgHits = 'reset'`},
 		q:     []string{`hostEval('typeof hostMark$ + String(hostMark$)')`, `(typeof dbgHits) + ':' + (typeof dbgHits === 'undefined' ? '' : dbgHits)`, `Math.random() + ',' + Math.random()`, `(function d(n){ if (n > 150) return 'no limit'; try { return d(n + 1) } catch (e) { return n + e.name } })(0)`},
 		roots: []string{}, plain: []string{}},
+	// frozen / sealed / non-extensible holders made BEFORE Copy() whose members are accessors (getter only, setter only,
+	// both) over captured mutable state plus primitives only; holders reachable only through a prototype chain or a
+	// closure; frozen array and frozen function with accessors.  Everything hangs off non-enumerable properties so that
+	// no other feature's enumeration invokes a getter.
+	{name: "frozenacc", code: 20,
+		setup: []string{`var fz$ = (function(){ var issued = 0, stored = 'init', log = '', cnt = 0; var api = {};
+  function hide(n, v){ Object.defineProperty(api, n, {value: v, enumerable: false, writable: true, configurable: true}) }
+  hide('ticket', Object.freeze({get next(){ issued += 1; return issued }, step: 1}));
+  var box = {}; Object.defineProperty(box, 'w', {set: function(v){ stored = v }, enumerable: true}); Object.defineProperty(box, 'label', {value: 'box', enumerable: true}); hide('box', Object.freeze(box));
+  hide('both', Object.freeze({get v(){ log += 'g'; return stored }, set v(x){ log += 's'; stored = x + '!' }, n: 7, s: 'str', b: true, u: undefined, z: null}));
+  var sealed = {}; Object.defineProperty(sealed, 'c', {get: function(){ cnt += 1; return cnt }, set: function(x){ cnt = x }, configurable: true}); hide('sealed', Object.seal(sealed));
+  var nonext = {}; Object.defineProperty(nonext, 'a', {get: function(){ cnt += 2; return cnt }}); Object.defineProperty(nonext, 'k', {value: 'const'}); hide('nonext', Object.preventExtensions(nonext));
+  hide('child', Object.create(Object.freeze({get viaProto(){ issued += 10; return issued }, set viaProto(x){ issued = x }})));
+  var hidden = Object.freeze({get h(){ issued += 100; return issued }}); hide('useHidden', function(){ return hidden.h });
+  var farr = [1, 2]; Object.defineProperty(farr, 'g', {get: function(){ issued += 1000; return issued }}); hide('farr', Object.freeze(farr));
+  var ffn = function(){ return 'ffn' }; Object.defineProperty(ffn, 'g', {get: function(){ log += 'f'; return log.length }}); hide('ffn', Object.freeze(ffn));
+  var only = {}; Object.defineProperty(only, 'get', {get: function(){ log += 'o'; return log }}); Object.defineProperty(only, 'set', {set: function(x){ log += 'O' + x }}); hide('only', Object.freeze(only));
+  hide('peek', function(){ return [issued, stored, log, cnt].join('/') });
+  return api })();`,
+			`var fz$late = (function(){ var n = 0; var o = {}; Object.defineProperty(o, 'tick', {get: function(){ return ++n }, enumerable: false}); o.plain = 1; Object.defineProperty(o, 'peek', {value: function(){ return n }, enumerable: false}); return o })(); Object.defineProperty(fz$late, 'plain', {writable: false, configurable: false});`},
+		muts:  []string{`fz$.ticket.next`, `fz$.box.w = 'x'`, `fz$.both.v = 'bv'`, `fz$.both.v`, `fz$.sealed.c`, `fz$.sealed.c = 40`, `fz$.nonext.a`, `fz$.child.viaProto`, `fz$.child.viaProto = 5`, `fz$.useHidden()`, `fz$.farr.g`, `fz$.ffn.g`, `fz$.only.get`, `fz$.only.set = 1`, `fz$late.tick`, `Object.freeze(fz$late)`, `fz$.ticket.next; fz$.ticket.next; fz$.ticket.next`, `fz$.ticket.step = 9; fz$.ticket.zz = 1`},
+		q:     []string{`fz$.peek() + ',' + fz$late.peek()`, `[fz$.ticket, fz$.box, fz$.both, fz$.sealed, fz$.nonext, fz$.farr, fz$.ffn, fz$.only, fz$late].map(function(o){ return (Object.isFrozen(o) ? 'F' : '-') + (Object.isSealed(o) ? 'S' : '-') + (Object.isExtensible(o) ? 'E' : '-') }).join()`, `fz$.ticket.step + ',' + fz$.ticket.zz + ',' + fz$.both.n + fz$.both.s + fz$.both.b + ',' + fz$.nonext.k + ',' + fz$.farr.length + ',' + fz$.ffn()`, `(function(){ var d = Object.getOwnPropertyDescriptor(fz$.both, 'v'), e = Object.getOwnPropertyDescriptor(fz$.box, 'w'), f = Object.getOwnPropertyDescriptor(fz$.ticket, 'next'); return typeof d.get + typeof d.set + d.configurable + typeof e.get + typeof e.set + typeof f.get + typeof f.set + f.enumerable })()`},
+		both:  []string{`fz$.ticket.next`, `fz$.box.w = 'w' + fz$.peek().length`, `fz$.both.v = 'b'`, `fz$.both.v`, `fz$.sealed.c`, `fz$.sealed.c = 7`, `fz$.nonext.a`, `fz$.child.viaProto`, `fz$.child.viaProto = 3`, `fz$.useHidden()`, `fz$.farr.g`, `fz$.ffn.g`, `fz$.only.get`, `fz$.only.set = 2`, `fz$late.tick`},
+		roots: []string{"fz$"}, plain: []string{"fz$"}},
 	{name: "getterstate", code: 16,
 		setup: []string{`var gs$ = (function(){ var log = []; var target = {v: 0}; var api = {}; Object.defineProperty(api, 'hit', {get: function(){ log.push(log.length); return log.length }, enumerable: false}); api.log = function(){ return log.join('') }; api.target = target; api.bump = function(){ target.v++; return api }; return api })();`},
 		muts:  []string{`gs$.hit`, `gs$.bump().bump()`, `gs$.target.v = 'direct'`, `gs$.hit; gs$.hit`, `gs$.target = {v: 'replaced'}`},
@@ -182,6 +207,15 @@ var (
 		muts: []string{`ca$ = function replaced(){ return who$() }`, `co$.m = ca$`, `cg$ = function(){ return cf$() }`, `who$.tag = 1`, `cb$ = cb$.bind(null)`},
 		q:    []string{`String(cg$())`, `[ca$(), cb$(), String(who$()), co$.m(), deep$(3), (function anon(){ return who$() })(), [1].map(function cbk(){ return who$() })[0]].join()`, `(function(){ var d = Object.getOwnPropertyDescriptor(who$, 'caller'); return typeof d.get + typeof d.set + d.enumerable + d.configurable })()`}}
 )
+
+func featureByName(n string) feature {
+	for _, f := range features {
+		if f.name == n {
+			return f
+		}
+	}
+	panic("no feature " + n)
+}
 
 func init() {
 	features = append(features, defArgParam, defEvalGone1, defEvalGone2, defEvalSwap, defCaller)
@@ -385,8 +419,8 @@ func (p picked) qexpr() string {
 
 func runC17(env *Env) {
 	env.Import = "Otto.C17.Corr"
-	env.Rule = "scenario = setup history H (2-6 feature instances out of 23 kinds: closures sharing stashes, nested scopes, prototype chains, accessors, attributes and order, frozen/sealed, bound functions, arguments aliasing, modified built-ins, Date/RegExp/wrapper objects, arrays, with/catch/named-function scopes, cycles, sharing of one object of every class through several paths, global bindings, stateful getters, deletable/immutable scope bindings, host configuration (stack limit, random source, debugger handler, call.Otto), closures of functions with a parameter named arguments, global eval deleted / rebound to a primitive / to another function, functions inspecting f.caller (plain, bound, method, recursive, callback); run as separate programs and cross-linked), Copy(), then 2-7 rounds each mutating one runtime (original, copy, copy of copy, later copy) or taking a further copy; after every round every runtime is compared with its replica on all observation programs and on a script dump of its user heap; non-trivial = distinct scenario with at least one mutation round and at least 3 feature kinds, or a heap-dump case"
-	pinned := []feature{defArgParam, defEvalGone1, defEvalGone2, defEvalSwap, defCaller}
+	env.Rule = "scenario = setup history H (2-6 feature instances out of 24 kinds: closures sharing stashes, nested scopes, prototype chains, accessors, attributes and order, frozen/sealed, holders frozen/sealed/non-extensible before Copy() with getter-only/setter-only/both accessors over captured state (also behind a prototype, behind a closure, on a frozen array and function; every accessor run on copy and original in both orders), bound functions, arguments aliasing, modified built-ins, Date/RegExp/wrapper objects, arrays, with/catch/named-function scopes, cycles, sharing of one object of every class through several paths, global bindings, stateful getters, deletable/immutable scope bindings, host configuration (stack limit, random source, debugger handler, call.Otto), closures of functions with a parameter named arguments, global eval deleted / rebound to a primitive / to another function, functions inspecting f.caller (plain, bound, method, recursive, callback); run as separate programs and cross-linked), Copy(), then 2-7 rounds each mutating one runtime (original, copy, copy of copy, later copy) or taking a further copy; after every round every runtime is compared with its replica on all observation programs and on a script dump of its user heap; non-trivial = distinct scenario with at least one mutation round and at least 3 feature kinds, or a heap-dump case"
+	pinned := []feature{defArgParam, defEvalGone1, defEvalGone2, defEvalSwap, defCaller, featureByName("frozenacc")}
 	const batch = 64
 	for base := 0; env.Count() < env.N; base += batch {
 		gens := make([]*gen, batch)
@@ -571,6 +605,23 @@ func (g *gen) scenario(defect *feature, serial int) {
 		g.dumpCase(a, b, rootNames, serial, &text)
 		observe(a, "afterCopy", true)
 		observe(b, "afterCopy", true)
+		// ---- accessors of holders frozen before Copy(): each one on the copy and on the original, in both orders
+		nb := 0
+		for _, p := range ps {
+			for _, m := range p.f.both {
+				first, second := b, a
+				if nb%2 == 1 {
+					first, second = a, b
+				}
+				nb++
+				g.apply(first, inst(m, p.k), &text)
+				observe(a, "both", false)
+				observe(b, "both", false)
+				g.apply(second, inst(m, p.k), &text)
+				observe(a, "both", false)
+				observe(b, "both", false)
+			}
+		}
 		// ---- rounds
 		rounds := 2 + r.Intn(6)
 		nm := 0
